@@ -2,6 +2,7 @@
 C11 helper lemmas: tag value codec (`banyand/internal/encoding/tag_encoder.go`).
 -/
 import Banyan.Lemmas.C11Total
+import Banyan.Lemmas.C11Float
 import Banyan.Lemmas.Bytes
 
 namespace Banyan.C11
@@ -142,14 +143,36 @@ theorem map_some_int64 (vs : List (List Nat)) (h8 : ∀ v ∈ vs, v.length = 8) 
     rw [int64ToBytes_bytesToInt64 v (h8 v (by simp)) (hb v (by simp)),
       ih (fun x hx => h8 x (by simp [hx])) (fun x hx => hb x (by simp [hx]))]
 
-theorem map_some_float64 (vs : List (List Nat)) (h8 : ∀ v ∈ vs, v.length = 8) (hb : ∀ v ∈ vs, ∀ b ∈ v, b < 256) :
-    (vs.map fun v => BitVec.ofNat 64 (ofBE v)).map (fun f => some (beBytes 8 f.toNat)) = vs.map some := by
-  induction vs with
-  | nil => rfl
+/-- tag values read back from the float64 column: identical, or two 8-byte zeros of either sign
+    (the decimal codec does not keep the sign of zero – known finding F1z). -/
+def ZeroSignEq : List Item → List Item → Prop
+  | [], [] => True
+  | y :: ys, x :: xs =>
+    (y = x ∨ ∃ a b : BitVec 64, isZero64 a = true ∧ isZero64 b = true ∧
+        x = some (beBytes 8 a.toNat) ∧ y = some (beBytes 8 b.toNat)) ∧ ZeroSignEq ys xs
+  | _, _ => False
+
+theorem ZeroSignEq.refl (l : List Item) : ZeroSignEq l l := by
+  induction l with
+  | nil => trivial
+  | cons x xs ih => exact ⟨Or.inl rfl, ih⟩
+
+theorem zeroSignEq_of_same (vs : List (List Nat)) (fs : List (BitVec 64))
+    (h8 : ∀ v ∈ vs, v.length = 8) (hb : ∀ v ∈ vs, ∀ b ∈ v, b < 256)
+    (h : SameFloats fs (vs.map fun v => BitVec.ofNat 64 (ofBE v))) :
+    ZeroSignEq (fs.map fun f => some (beBytes 8 f.toNat)) (vs.map some) := by
+  induction vs generalizing fs with
+  | nil => cases fs <;> simp_all [SameFloats, ZeroSignEq]
   | cons v vs ih =>
-    simp only [List.map_cons]
-    rw [be8_ofNat64 v (h8 v (by simp)) (hb v (by simp)),
-      ih (fun x hx => h8 x (by simp [hx])) (fun x hx => hb x (by simp [hx]))]
+    cases fs with
+    | nil => simp [SameFloats] at h
+    | cons f fs =>
+      simp only [List.map_cons, SameFloats] at h
+      have hv := be8_ofNat64 v (h8 v (by simp)) (hb v (by simp))
+      refine ⟨?_, ih fs (fun x hx => h8 x (by simp [hx])) (fun x hx => hb x (by simp [hx])) h.2⟩
+      rcases h.1 with rfl | ⟨hx, hy⟩
+      · left; show some (beBytes 8 (BitVec.ofNat 64 (ofBE v)).toNat) = some v; rw [hv]
+      · right; exact ⟨_, f, hx, hy, by rw [hv], rfl⟩
 
 theorem tag_int64_rt (z : Zstd) (hz : z.Lawful) (values : List Item) (hok : TagOK values)
     (buf : List Byte) (et : Nat) (h : encodeInt64TagValues z values = .ok (buf, et)) :
@@ -186,32 +209,22 @@ theorem tag_int64_rt (z : Zstd) (hz : z.Lawful) (values : List Item) (hok : TagO
   · simp at h
   · simp at h
 
-theorem tag_float64_rt (z : Zstd) (hz : z.Lawful) (fd : FloatDec) (values : List Item) (hne : values ≠ [])
+theorem tag_float64_rt (z : Zstd) (hz : z.Lawful) (fd : FloatDec) (values : List Item)
     (hok : TagOK values) (buf : List Byte) (et : Nat)
     (h : encodeFloat64TagValues z fd values = .ok (buf, et)) :
-    decodeFloat64TagValues z fd buf values.length = .ok values := by
+    ∃ ys, decodeFloat64TagValues z fd buf values.length = .ok ys ∧ ZeroSignEq ys values := by
   unfold encodeFloat64TagValues at h
   split at h
   · simp only [plainBlock, Res.ok.injEq, Prod.mk.injEq] at h
-    rw [← h.1]; exact plain_float64_rt z hz fd values hok
+    rw [← h.1]; exact ⟨values, plain_float64_rt z hz fd values hok, ZeroSignEq.refl _⟩
   · rename_i vs hs
     obtain ⟨hv, h8⟩ := scan8_some values vs hs
     split at h
     · simp only [plainBlock, Res.ok.injEq, Prod.mk.injEq] at h
-      rw [← h.1]; exact plain_float64_rt z hz fd values hok
+      rw [← h.1]; exact ⟨values, plain_float64_rt z hz fd values hok, ZeroSignEq.refl _⟩
     · simp at h
     · rename_i ds exp hfl
-      -- the repaired encoder only returns lists that decode to the same bits
-      have hdec : decimalIntListToFloat64List fd ds exp = vs.map fun v => BitVec.ofNat 64 (ofBE v) := by
-        unfold float64ListToDecimalIntList at hfl
-        split at hfl
-        · split at hfl
-          · rename_i heq
-            simp only [Res.ok.injEq, Prod.mk.injEq] at hfl
-            rw [← hfl.1, ← hfl.2]; exact heq
-          · simp at hfl
-        · simp at hfl
-        · simp at hfl
+      have hsame := float_accept_same fd _ ds exp hfl
       split at h
       · rename_i bs mt first henc
         simp only [Res.ok.injEq, Prod.mk.injEq] at h
@@ -236,14 +249,17 @@ theorem tag_float64_rt (z : Zstd) (hz : z.Lawful) (fd : FloatDec) (values : List
           simp
         rw [ht2, ht8, hd, hexp, bytesToInt64_int64ToBytes]
         have hdl : ds.length = vs.length := by
-          have := congrArg List.length hdec
+          have := hsame.length_eq
           simpa [decimalIntListToFloat64List] using this
         have hlen : values.length = ds.length := by rw [hv, hdl]; simp
         rw [hlen, hrt]
-        simp only [orPanic, hdec]
-        have : ¬ (vs.map fun v => BitVec.ofNat 64 (ofBE v)).length ≠ ds.length := by simp [hdl]
+        simp only [orPanic]
+        have : ¬ (decimalIntListToFloat64List fd ds exp).length ≠ ds.length := by
+          simp [decimalIntListToFloat64List]
         simp only [this, if_false]
-        rw [map_some_float64 vs h8 (fun v hvm b hb => hok.bytes v (by rw [hv]; simp [hvm]) b hb), hv]
+        refine ⟨_, rfl, ?_⟩
+        rw [hv]
+        exact zeroSignEq_of_same vs _ h8 (fun v hvm b hb => hok.bytes v (by rw [hv]; simp [hvm]) b hb) hsame
       · simp at h
       · simp at h
   · simp at h
